@@ -20,10 +20,12 @@
          than 12 elements, which Go's sort.Slice sorts by insertion, i.e. stably
          -> same result line as search
      evalcmd <script>   -> ok <n:i+j:value,...> <doubles>:<adds> | err reject     (model/Search.v eval_cmd)
-     fmtcmd <script>    -> ok <bytes> | err reject                                (model/Search.v fmt_cmd) *)
+     fmtcmd <script>    -> ok <bytes> | err reject                                (model/Search.v fmt_cmd)
+     fmtbcmd <script>   -> ok <bytes> | err reject                                (model/Cli.v fmt_out true: fmt -b) *)
 From Coq Require Import String.
 From Coq Require Import List NArith ZArith Bool QArith.
 From AV Require Import model.Proto model.Chain model.Program model.Search model.SearchEns.
+From AV Require model.Cli.
 Import ListNotations.
 Open Scope N_scope.
 
@@ -125,6 +127,7 @@ Definition run (line : list N) : list N :=
       | Some src =>
           if str_eqb f $"evalcmd" then reject print_evalcmd (eval_cmd src)
           else if str_eqb f $"fmtcmd" then reject print_bytes (fmt_cmd src)
+          else if str_eqb f $"fmtbcmd" then reject print_bytes (Cli.fmt_out true src)
           else r_badcase
       | None => r_badcase
       end
